@@ -8,8 +8,20 @@ num_steps, list(iter), obj[i] for every i in -len-1..len, steps) and the excepti
 compared exactly.  Independently of the model, the oracle evaluates the property statement on the
 observations of the real object after every operation.
 
-Slices are unit stride only: a strided slice s[i:j:k] has no step-range meaning (the result's
-steps are not consecutive source steps), so it is outside the property and never generated.
+Object identity: a history works on a HEAP of real objects.  `copy.deepcopy(s)`, `s[i:j]`, `s[i:j:k]`
+return a new object and leave `s` alive; the history continues on the new object and may switch back to
+any earlier one (`['sw', k]`).  After every operation the oracle checks that no object other than the
+receiver changed, and the complete heap (every object's observation) is compared with the model's heap at
+the end of every history (for the exhaustive stream: at every node).  For lead sheets `['sh', a, b]` builds
+`LeadSheet(obj[a].melody, obj[b].chords)` (the constructor stores the objects it is given: real sharing)
+and `['mo', op]` / `['co', op]` call a method of the current lead sheet's melody / chords object behind the
+lead sheet's back; these three are outside the property's operation alphabet (the oracle makes no demands
+after them) and exist to tie the model's reference semantics to the code.
+
+Extended slices s[i:j:k] are modelled and compared (start offset = slice.indices(len)[0], ValueError for
+k = 0); the property's clause "slices carry the step offset of the elements they contain" cannot hold for
+them (element m comes from source step lo + m*k but is reported at lo + m), so the oracle demands only
+that the result is a consistent sequence of the same class holding exactly the selected events.
 """
 import copy
 import json
@@ -17,9 +29,9 @@ import json
 from harness.common import corpus_cases, lean_int, lean_str, wl
 
 PID = 'C17'
-MODULES = ['NoteSeqVerif.Props.C17']
+MODULES = ['NoteSeqVerif.Props.C17', 'NoteSeqVerif.Props.C17Heap']
 EXE = 'drv_c17'
-THEOREMS = ['NSV.C17.' + t for t in (
+THEOREMS = [('NoteSeqVerif.Props.C17', 'NSV.C17.' + t) for t in (
     # python list primitives
     'py_slice_start py_slice_elements py_index py_range '
     # simple family (SimpleEventSequence, Melody, DrumTrack, ChordProgression)
@@ -32,10 +44,25 @@ THEOREMS = ['NSV.C17.' + t for t in (
     'roll_step roll_set_length_exact roll_observations_consistent '
     # performance
     'perf_append_steps perf_trim_steps perf_append_trim perf_set_length_exact perf_inv_step '
-    'perf_inv_reachable perf_observations_consistent').split()]
+    'perf_inv_reachable perf_observations_consistent '
+    # Melody events stay within -2..127 after every operation / history
+    'melody_step_in_range melody_reachable_in_range lead_melody_reachable_in_range '
+    # extended slices s[i:j:k]
+    'py_slice_step_elements py_slice_step_unit strided_slice_result strided_slice_zero_step '
+    'strided_slice_misplaces lead_strided_slice_ok '
+    # NotePerformance
+    'nperf_step nperf_set_length_noop nperf_observations_consistent nperf_reachable').split()] + [
+    ('NoteSeqVerif.Props.C17Heap', 'NSV.C17.' + t) for t in (
+    # heaps of objects: identity, deepcopy independence, invariants of every object
+    'heap_untouched deepcopy_independent deepcopy_independent_classes heap_inv_reachable '
+    'melody_heap_in_range perf_heap_inv_reachable '
+    # lead sheets as references to Melody / ChordProgression objects
+    'store_wf_reachable lead_deepcopy_independent lead_private_untouched '
+    'lead_store_inv_reachable').split()]
 
 SIMPLE = ('simple', 'melody', 'drum', 'chord')
-KINDS = SIMPLE + ('lead', 'roll', 'perf')
+KINDS = SIMPLE + ('lead', 'roll', 'perf', 'nperf')
+FRESH = ('sc', 'sk', 'dc', 'in')     # operations that return a new object
 NO_EVENT, NOTE_OFF = -2, -1          # from the property text / Melody docstring, not from the code
 
 
@@ -68,6 +95,9 @@ def ev_py(kind, j):
         return (j[0], j[1])
     if kind == 'roll':
         return tuple(j)
+    if kind == 'nperf':
+        from note_seq.performance_lib import PerformanceEvent as PE
+        return (PE(PE.TIME_SHIFT, j[0]), PE(PE.NOTE_ON, j[1]), PE(PE.VELOCITY, j[2]), PE(PE.DURATION, j[3]))
     return j
 
 
@@ -76,6 +106,8 @@ def ev_wire(kind, j):
         return '%s:%s' % (j[0], ','.join(map(str, j[1])))
     if kind == 'roll':
         return 't:' + ','.join(map(str, j))
+    if kind == 'nperf':
+        return ','.join(map(str, j))
     return str(j)
 
 
@@ -89,6 +121,8 @@ def ev_render(kind, e):
         return 't:' + ','.join(map(str, e))
     if kind == 'perf':
         return '%d:%d' % (e.event_type, e.event_value)
+    if kind == 'nperf':
+        return ','.join(str(x.event_value) for x in e)
     return str(e)
 
 
@@ -120,6 +154,12 @@ def make(kind, init):
             assert q * mq == init['max_shift']
             return pl.MetricPerformance(steps_per_quarter=q, start_step=init['start'], max_shift_quarters=mq)
         return pl.Performance(steps_per_second=100, start_step=init['start'], max_shift_steps=init['max_shift'])
+    if kind == 'nperf':
+        from note_seq.protobuf import music_pb2
+        qs = music_pb2.NoteSequence()
+        qs.quantization_info.steps_per_second = 100
+        return pl.NotePerformance(qs, num_velocity_bins=32, instrument=0, start_step=init['start'],
+                                  max_shift_steps=init['max_shift'])
     raise ValueError(kind)
 
 
@@ -142,8 +182,8 @@ def wire_init(kind, init):
     if kind == 'roll':
         return 'roll %d %d %d %d %d %s' % (init['start'], init['spq'], init['min_pitch'], init['max_pitch'],
                                            1 if init['shift_range'] else 0, wl(ev_wire('roll', e) for e in init['events']))
-    if kind == 'perf':
-        return 'perf %d %d' % (init['start'], init['max_shift'])
+    if kind in ('perf', 'nperf'):
+        return '%s %d %d' % (kind, init['start'], init['max_shift'])
     raise ValueError(kind)
 
 
@@ -155,6 +195,22 @@ def wire_lead_args(init):
 
 def wire_op(kind, op):
     t = op[0]
+    if t == 'sw':
+        return 'sw %d' % op[1]
+    if t == 'sk':
+        return 'sk %s %s %d' % (opt(op[1]), opt(op[2]), op[3])
+    if kind == 'lead' and t == 'sh':
+        return 'sh %d %d' % (op[1], op[2])
+    if kind == 'lead' and t in ('mo', 'co'):
+        return '%s %s' % (t, wire_op('melody' if t == 'mo' else 'chord', op[1]))
+    if kind == 'nperf':
+        if t == 'a':
+            return 'a ' + ev_wire(kind, op[1])
+        if t == 'sl':
+            return 'sl %d %d' % (op[1], 1 if op[2] else 0)
+        if t == 'tr':
+            return 'tr %d' % op[1]
+        return t
     if kind in SIMPLE:
         if t == 'a':
             return 'a ' + ev_wire(kind, op[1])
@@ -209,6 +265,8 @@ def apply_op(kind, obj, op):
                 obj.set_length(op[1])
         elif t == 'sc':
             return obj[op[1]:op[2]]
+        elif t == 'sk':
+            return obj[op[1]:op[2]:op[3]]
         elif t == 'ir':
             if kind in ('melody', 'drum') or op[2] is None:
                 obj.increase_resolution(op[1])
@@ -231,6 +289,8 @@ def apply_op(kind, obj, op):
             obj.set_length(op[1])
         elif t == 'sc':
             return obj[op[1]:op[2]]
+        elif t == 'sk':
+            return obj[op[1]:op[2]:op[3]]
         elif t == 'ir':
             obj.increase_resolution(op[1])
         elif t == 'dc':
@@ -277,20 +337,118 @@ def apply_op(kind, obj, op):
         else:
             raise ValueError(op)
         return obj
+    if kind == 'nperf':
+        if t == 'a':
+            obj.append(ev_py('nperf', op[1]))
+        elif t == 'ab':
+            obj.append('not-a-tuple')
+        elif t == 'sl':
+            if op[2]:
+                obj.set_length(op[1], from_left=True)
+            else:
+                obj.set_length(op[1])
+        elif t == 'tr':
+            obj.truncate(op[1])
+        elif t == 'dc':
+            return copy.deepcopy(obj)
+        else:
+            raise ValueError(op)
+        return obj
     raise ValueError(kind)
 
 
-def raw_clone(o):
-    """attribute-level copy that does not go through any code under test (events are immutable values)"""
-    c = object.__new__(type(o))
-    d = c.__dict__
+# ----------------------------------------------------------------------------- the heap of real objects
+class World(object):
+    """the real objects of one history: `objs` in creation order, `cur` = index of the object the next call goes
+    to, `snaps[k]` = last observation of object k, `raws[k]` = attribute-level snapshot taken with it"""
+    __slots__ = ('kind', 'objs', 'cur', 'snaps', 'raws')
+
+    def __init__(self, kind, objs, cur=0):
+        self.kind, self.objs, self.cur = kind, objs, cur
+        self.snaps = [None] * len(objs)
+        self.raws = [None] * len(objs)
+
+
+def world_apply(w, op):
+    """run one operation of a history on the heap (exceptions propagate, the heap is then as the call left it)"""
+    t = op[0]
+    kind = w.kind
+    if t == 'sw':
+        w.objs[op[1]]                  # IndexError of the object list when there is no such object
+        w.cur = op[1]
+        return
+    if kind == 'lead' and t == 'sh':
+        from note_seq import lead_sheets_lib as ll
+        new = ll.LeadSheet(w.objs[op[1]].melody, w.objs[op[2]].chords)
+    elif kind == 'lead' and t == 'mo':
+        apply_op('melody', w.objs[w.cur].melody, op[1])
+        return
+    elif kind == 'lead' and t == 'co':
+        apply_op('chord', w.objs[w.cur].chords, op[1])
+        return
+    else:
+        new = apply_op(kind, w.objs[w.cur], op)
+        if t not in FRESH:
+            return
+    w.objs.append(new)
+    w.snaps.append(None)
+    w.raws.append(None)
+    w.cur = len(w.objs) - 1
+
+
+def _raw_copy(v, memo):
+    """attribute-level copy that does not go through any code under test and PRESERVES sharing: two objects
+    (or two attributes) holding the same list / the same sub-object hold the same copy (events are immutable)"""
+    if type(v) is list:
+        c = memo.get(id(v))
+        if c is None:
+            c = memo[id(v)] = list(v)
+        return c
+    if hasattr(v, '_events') or hasattr(v, '_melody'):
+        c = memo.get(id(v))
+        if c is None:
+            c = memo[id(v)] = object.__new__(type(v))
+            d = c.__dict__
+            for k, x in v.__dict__.items():
+                d[k] = _raw_copy(x, memo)
+        return c
+    return v
+
+
+def clone_world(w):
+    memo = {}
+    c = World(w.kind, [_raw_copy(o, memo) for o in w.objs], w.cur)
+    c.snaps = list(w.snaps)
+    c.raws = list(w.raws)
+    return c
+
+
+def raw_state(o):
+    """value of every attribute (lists copied, sub-objects recursively): what an observation is a function of"""
+    out = {}
     for k, v in o.__dict__.items():
         if type(v) is list:
             v = list(v)
         elif hasattr(v, '_events'):
-            v = raw_clone(v)
-        d[k] = v
-    return c
+            v = raw_state(v)
+        out[k] = v
+    return out
+
+
+def raw_same(o, st):
+    d = o.__dict__
+    if len(d) != len(st):
+        return False
+    for k, v in d.items():
+        if k not in st:
+            return False
+        x = st[k]
+        if hasattr(v, '_events'):
+            if type(x) is not dict or not raw_same(v, x):
+                return False
+        elif type(v) is not type(x) or v != x:
+            return False
+    return True
 
 
 class Snap(object):
@@ -316,7 +474,7 @@ def observe(kind, obj):
     sn.start, sn.end = obj.start_step, obj.end_step
     if kind == 'roll':
         sn.x1, sn.x2 = obj.num_steps, obj.steps_per_quarter
-    elif kind == 'perf':
+    elif kind in ('perf', 'nperf'):
         sn.x1, sn.x2 = obj.num_steps, obj.max_shift_steps
     else:
         sn.x1, sn.x2 = obj.steps_per_bar, obj.steps_per_quarter
@@ -324,6 +482,9 @@ def observe(kind, obj):
         n, sn.start, sn.end, sn.x1, sn.x2, wl(ev_render(kind, e) for e in it),
         ' '.join('E' if e is IDXERR else ev_render(kind, e) for e in idx), wl(sn.steps))
     sn.chords = None
+    if kind == 'perf':
+        # the resolution attribute of the concrete class (not part of the model): must never change
+        sn.chords = ('spq', obj.steps_per_quarter) if hasattr(obj, 'steps_per_quarter') else ('sps', obj.steps_per_second)
     if kind == 'lead':
         c = obj.chords
         sn.chords = (len(c), c.start_step, c.end_step, c.steps_per_bar, c.steps_per_quarter, list(c), list(obj.melody))
@@ -381,6 +542,16 @@ def classify(kind, op):
     must stay as it was; ('undefined', None): outside the operation's domain (negative length, factor < 1):
     nothing is demanded, and nothing is demanded of the object afterwards."""
     t = op[0]
+    if t == 'sw':
+        return ('valid', None)
+    if t in ('sh', 'mo', 'co'):
+        return ('undefined', None)          # aliasing probes: outside the property's operation alphabet
+    if t == 'sk' and op[3] == 0:
+        return ('reject', ValueError)       # "slice step cannot be zero"
+    if kind == 'nperf':
+        if t == 'ab':
+            return ('reject', ValueError)
+        return ('valid', None)
     if kind in SIMPLE:
         if t == 'a':
             if kind == 'melody' and not melody_ok(op[1]):
@@ -437,7 +608,18 @@ def shift_vals(it):
 def state_failures(kind, sn):
     """the state invariants of the property statement, on one observation"""
     n, it, idx = sn.n, sn.it, sn.idx
-    if kind == 'perf':
+    if kind == 'nperf':
+        shifts = [e[0].event_value for e in it]
+        total = sum(shifts) + (it[-1][3].event_value if it else 0)
+        if sn.end - sn.start != total or sn.x1 != total:
+            return 'num_steps / end_step - start_step differ from the time shifts plus the last duration'
+        st, want = sn.start, []
+        for v in shifts:
+            st += v
+            want.append(st)
+        if sn.steps != want:
+            return 'steps does not list the onset step of every note event'
+    elif kind == 'perf':
         total = sum(shift_vals(it))
         if sn.end - sn.start != total or sn.x1 != total:
             return 'num_steps / end_step - start_step differ from the sum of the time shifts'
@@ -560,6 +742,15 @@ def transition_failures(kind, op, b, a, obj_b, obj_a, pad):
                     return 'slice does not carry the step offset of the elements it contains'
             elif not b.start <= a.start <= b.end:
                 return 'empty slice placed outside the step range of its source'
+        elif t == 'sk':
+            # extended slice: a consistent sequence of the same class holding exactly the selected events, same
+            # resolution; no step-offset demand (a stride has no step-range meaning, see the module docstring)
+            if type(obj_a) is not type(obj_b):
+                return 'strided slice is not a %s' % type(obj_b).__name__
+            if not same_events(kind, a.it, b.it[op[1]:op[2]:op[3]]):
+                return 'strided slice does not contain the selected events'
+            if (a.x1, a.x2) != (b.x1, b.x2):
+                return 'strided slice changed the resolution'
         elif t == 'ir':
             k = op[1]
             if (a.n, a.start, a.end, a.x1, a.x2) != (b.n * k, b.start * k, b.end * k, b.x1 * k, b.x2 * k):
@@ -596,7 +787,25 @@ def transition_failures(kind, op, b, a, obj_b, obj_a, pad):
             if obj_a is obj_b or a.text != b.text:
                 return 'deepcopy differs from the original'
         return None
+    if kind == 'nperf':
+        if t == 'a':
+            if a.n != b.n + 1 or a.it[:-1] != b.it or a.it[-1] != ev_py('nperf', op[1]) or a.start != b.start:
+                return 'append did not add exactly the event at the end'
+        elif t == 'sl':
+            # NotePerformance.set_length is a documented no-op ("not actually implemented"): NotePerformance is not in
+            # the property's class list; what is checked is that it really leaves the object alone
+            if a.text != b.text:
+                return 'NotePerformance.set_length changed the object'
+        elif t == 'tr':
+            if a.start != b.start or a.it != b.it[:a.n] or (op[1] >= 0 and a.n != min(op[1], b.n)):
+                return 'truncate did not keep exactly the first events'
+        elif t == 'dc':
+            if obj_a is obj_b or type(obj_a) is not type(obj_b) or a.text != b.text:
+                return 'deepcopy differs from the original'
+        return None
     if kind == 'perf':
+        if a.chords != b.chords:
+            return 'steps_per_quarter / steps_per_second changed'
         mx = b.x2
         okb = all(1 <= v <= mx for v in shift_vals(b.it))
         oka = all(1 <= v <= mx for v in shift_vals(a.it))
@@ -642,45 +851,79 @@ def transition_failures(kind, op, b, a, obj_b, obj_a, pad):
             if a.start != b.start or a.it != b.it[:a.n] or (op[1] >= 0 and a.n != min(op[1], b.n)):
                 return 'truncate did not keep exactly the first events'
         elif t == 'dc':
-            if obj_a is obj_b or a.text != b.text:
+            if obj_a is obj_b or type(obj_a) is not type(obj_b) or a.text != b.text:
                 return 'deepcopy differs from the original'
         return None
     raise ValueError(kind)
 
 
 # ----------------------------------------------------------------------------- one step, real side
-def real_step(kind, obj, op, before, pad, tainted):
-    """apply `op` to the real object.  returns (current object, status token, observation, oracle failure or
-    None, tainted')."""
+def snapshot(w, k):
+    """(re)observe object k of the heap and remember the attribute values the observation was made from"""
+    sn = observe(w.kind, w.objs[k])
+    w.snaps[k] = sn
+    w.raws[k] = raw_state(w.objs[k])
+    return sn
+
+
+def world_dump(w):
+    return 'heap %d %d' % (len(w.objs), w.cur) + ''.join(' # ' + sn.text for sn in w.snaps)
+
+
+def real_step(w, op, pad, tainted):
+    """apply `op` to the heap `w` (mutated).  returns (status token, observation of the current object afterwards,
+    oracle failure or None, tainted')."""
+    kind = w.kind
     cls, exc = classify(kind, op)
+    recv, n_before = w.cur, len(w.objs)
+    before = w.snaps[recv]
     err = None
     try:
-        new = apply_op(kind, obj, op)
+        world_apply(w, op)
     except Exception as e:  # pylint: disable=broad-except
-        new, err = obj, e
+        err = e
     status = 'ok' if err is None else err_name(err)
-    fail = None
+    # re-observe the receiver, every new object and every other object whose attributes are no longer what they were
+    changed = []
     try:
-        after = observe(kind, new)
+        for k in range(len(w.objs)):
+            if k == recv or k >= n_before:
+                snapshot(w, k)
+            elif not raw_same(w.objs[k], w.raws[k]):
+                old = w.snaps[k].text
+                if snapshot(w, k).text != old:
+                    changed.append(k)
     except Exception as e:  # pylint: disable=broad-except
         if tainted or cls == 'undefined':
             raise Unobservable(status, e)
-        raise OracleHit('observing the object raised %s: %s' % (type(e).__name__, e), status)
-    if tainted:
-        return new, status, after, None, True
-    if cls == 'undefined':
-        return new, status, after, None, True
-    if cls == 'reject':
+        raise OracleHit('observing object %d raised %s: %s' % (k, type(e).__name__, e), status)
+    after = w.snaps[w.cur]
+    if tainted or cls == 'undefined':
+        return status, after, None, True
+    fail = None
+    recv_after = w.snaps[recv]
+    if changed:
+        fail = ('object %d changed although the operation was applied to object %d (objects share storage)'
+                % (changed[0], recv))
+    elif cls == 'reject':
         if err is None or not isinstance(err, exc):
             fail = 'expected %s, got %s' % (exc.__name__, status if err else 'a result')
-        elif after.text != before.text:
+        elif recv_after.text != before.text or len(w.objs) != n_before:
             fail = 'object changed although the operation raised %s' % status
-    else:
-        if err is not None:
-            fail = 'valid operation raised %s: %s' % (type(err).__name__, err)
+    elif err is not None:
+        fail = 'valid operation raised %s: %s' % (type(err).__name__, err)
+    elif op[0] == 'sw':
+        fail = state_failures(kind, after)
+    elif op[0] in FRESH:
+        if len(w.objs) != n_before + 1 or w.cur != n_before:
+            fail = 'no new object'
+        elif recv_after.text != before.text:
+            fail = 'the operation returns a new object but changed its receiver'
         else:
-            fail = state_failures(kind, after) or transition_failures(kind, op, before, after, obj, new, pad)
-    return new, status, after, fail, False
+            fail = state_failures(kind, after) or transition_failures(kind, op, before, after, w.objs[recv], w.objs[w.cur], pad)
+    else:
+        fail = state_failures(kind, after) or transition_failures(kind, op, before, after, w.objs[recv], w.objs[recv], pad)
+    return status, after, fail, False
 
 
 class OracleHit(Exception):
@@ -732,47 +975,32 @@ def real_init(kind, init):
 
 def run_history(kind, init, ops):
     """real side of one history.  returns (expected trace-mode response, first oracle failure or None,
-    number of ops whose observation is in the response, number of ops a replay needs)"""
+    number of ops whose observation is in the response, number of ops a replay needs, complete?)"""
     obj, status, fail = real_init(kind, init)
     if obj is None:
-        return 'init ' + status, fail, 0, 0
+        return 'init ' + status, fail, 0, 0, True
     pad = init.get('pad') if kind == 'simple' else None
     pad = pad_of(kind, pad) if kind in SIMPLE else None
+    w = World(kind, [obj])
     try:
-        sn = observe(kind, obj)
+        sn = snapshot(w, 0)
     except Exception as e:  # pylint: disable=broad-except
-        return 'init ok', 'observing the fresh object raised %s: %s' % (type(e).__name__, e), 0, 0
+        return 'init ok', 'observing the fresh object raised %s: %s' % (type(e).__name__, e), 0, 0, False
     fail = fail or state_failures(kind, sn)
     parts = ['init ok ' + sn.text]
     tainted = False
-    originals = []      # (op index of the deepcopy, the object it was taken from, its observation then)
     for k, op in enumerate(ops):
-        prev_obj, prev_sn = obj, sn
         try:
-            obj, status, sn, f, tainted = real_step(kind, obj, op, sn, pad, tainted)
+            status, sn, f, tainted = real_step(w, op, pad, tainted)
         except OracleHit as h:
-            return ' ; '.join(parts), fail or ('op %d %s: %s' % (k, json.dumps(op), h.what)), k, k + 1
+            return ' ; '.join(parts), fail or ('op %d %s: %s' % (k, json.dumps(op), h.what)), k, k + 1, False
         except Unobservable:
-            return ' ; '.join(parts), fail, k, k + 1
+            return ' ; '.join(parts), fail, k, k + 1, False
         if f and not fail:
             fail = 'op %d %s: %s' % (k, json.dumps(op), f)
-        # "after any sequence of … deepcopy …": the object a deepcopy was taken from is an EventSequence too and must
-        # keep satisfying the statement whatever is later done to the copy (a copy sharing storage breaks it)
-        if not fail and not tainted:
-            for k0, o0, sn0 in originals:
-                try:
-                    now = observe(kind, o0)
-                    bad = state_failures(kind, now) or (now.text != sn0.text and 'it changed')
-                except Exception as e:  # pylint: disable=broad-except
-                    bad = 'observing it raised %s: %s' % (type(e).__name__, e)
-                if bad:
-                    fail = ('op %d %s: the object deep-copied at op %d is no longer consistent after this operation '
-                            'on the copy: %s' % (k, json.dumps(op), k0, bad))
-                    break
-        if op[0] == 'dc' and status == 'ok' and obj is not prev_obj and not tainted:
-            originals.append((k, prev_obj, prev_sn))
         parts.append(status + ' ' + sn.text)
-    return ' ; '.join(parts), fail, len(ops), len(ops)
+    parts.append(world_dump(w))
+    return ' ; '.join(parts), fail, len(ops), len(ops), True
 
 
 def history_line(mode, kind, init, ops):
@@ -792,6 +1020,7 @@ def lead_init(mev, cev, start=0, spb=16, spq=4):
 
 
 SLICES = [['sc', 1, None], ['sc', -2, None], ['sc', None, -1], ['sc', 1, 3], ['sc', 7, None]]
+SW0 = [['sw', 0]]        # back to the first object of the history
 
 
 def exhaustive_plan(kind):
@@ -799,34 +1028,40 @@ def exhaustive_plan(kind):
     if kind == 'simple':
         return ([seq_init([1, 2, 3], 4, pad=0)],
                 [['a', 5], ['sl', 0, 0], ['sl', 2, 0], ['sl', 4, 0], ['sl', 0, 1], ['sl', 2, 1], ['sl', 5, 1]]
-                + SLICES + [['ir', 2, None], ['ir', 1, 9], ['dc'], ['ri', 2, 12, 3, [7, 8]], ['rs']])
+                + SLICES + [['ir', 2, None], ['ir', 1, 9], ['dc'], ['ri', 2, 12, 3, [7, 8]], ['rs'], ['sk', None, None, -2]] + SW0)
     if kind == 'melody':
         return ([seq_init([NOTE_OFF, 60, NO_EVENT], 4)],
                 [['a', 62], ['a', NOTE_OFF], ['a', NO_EVENT], ['a', 128], ['sl', 0, 0], ['sl', 2, 0], ['sl', 5, 0],
                  ['sl', 0, 1], ['sl', 2, 1], ['sl', 4, 1], ['sc', 1, None], ['sc', -2, None], ['sc', None, -1],
-                 ['ir', 2, None], ['dc'], ['ri', 2, 12, 3, [NOTE_OFF, 64]]])
+                 ['ir', 2, None], ['dc'], ['ri', 2, 12, 3, [NOTE_OFF, 64]], ['sk', -1, None, -1]] + SW0)
     if kind == 'drum':
         return ([seq_init([['f', [36]], ['f', []], ['f', [38, 42]]], 4)],
                 [['a', ['f', [36, 42]]], ['a', ['f', [128]]], ['a', ['x', [36]]], ['sl', 0, 0], ['sl', 2, 0], ['sl', 4, 0],
                  ['sl', 0, 1], ['sl', 5, 1], ['sc', 1, None], ['sc', -2, None], ['sc', None, -1], ['sc', 7, None],
-                 ['ir', 2, None], ['dc']])
+                 ['ir', 2, None], ['dc']] + SW0)
     if kind == 'chord':
         return ([seq_init(['C', 'Am', 'N.C.'], 4)],
                 [['a', 'G7'], ['sl', 0, 0], ['sl', 2, 0], ['sl', 4, 0], ['sl', 0, 1], ['sl', 2, 1], ['sl', 5, 1]]
-                + SLICES + [['ir', 2, None], ['ir', 2, 'X'], ['dc']])
+                + SLICES + [['ir', 2, None], ['ir', 2, 'X'], ['dc']] + SW0)
     if kind == 'lead':
         return ([lead_init([60, NO_EVENT, NOTE_OFF], ['C', 'C', 'Am'], 4)],
                 [['a', [62, 'G']], ['a', [NOTE_OFF, 'N.C.']], ['a', [200, 'C']], ['sl', 0], ['sl', 2], ['sl', 5],
                  ['sc', 1, None], ['sc', -2, None], ['sc', None, -1], ['sc', 7, None], ['ir', 2], ['dc'], ['rs'],
-                 ['in', {'melody': seq_init([NOTE_OFF, 67], 2), 'chords': seq_init(['F', 'G'], 3)}]])
+                 ['in', {'melody': seq_init([NOTE_OFF, 67], 2), 'chords': seq_init(['F', 'G'], 3)}],
+                 ['sk', None, None, 2], ['sh', 0, 1], ['mo', ['a', 64]]] + SW0)
     if kind == 'roll':
         return ([{'start': 4, 'spq': 4, 'min_pitch': 21, 'max_pitch': 108, 'shift_range': False, 'events': [[0, 4], []]}],
                 [['a', 0, [3]], ['a', 1, [20, 60, 109]], ['a', 0, []], ['sl', 0, 0], ['sl', 1, 0], ['sl', 2, 0], ['sl', 3, 0],
-                 ['sl', 5, 0], ['sl', 2, 1], ['dc']])
+                 ['sl', 5, 0], ['sl', 2, 1], ['dc']] + SW0)
     if kind == 'perf':
-        return ([{'start': 7, 'max_shift': 3}],
+        # Performance (steps_per_second) and MetricPerformance (steps_per_quarter=3, max_shift_quarters=1)
+        return ([{'start': 7, 'max_shift': 3}, {'start': 7, 'max_shift': 3, 'metric': [3, 1]}],
                 [['a', 1, 60], ['a', 3, 1], ['a', 3, 3], ['a', 3, -1], ['a', 3, 0], ['ab'], ['sl', 0, 0], ['sl', 2, 0], ['sl', 3, 0],
-                 ['sl', 4, 0], ['sl', 7, 0], ['as', 1], ['as', 5], ['ts', 1], ['ts', 4], ['tr', 1], ['tr', -1], ['dc']])
+                 ['sl', 4, 0], ['sl', 7, 0], ['as', 1], ['as', 5], ['ts', 1], ['ts', 4], ['tr', 1], ['tr', -1], ['dc']] + SW0)
+    if kind == 'nperf':
+        return ([{'start': 3, 'max_shift': 10}],
+                [['a', [2, 60, 5, 4]], ['a', [0, 62, 1, 1]], ['ab'], ['sl', 0, 0], ['sl', 3, 0], ['sl', 1, 1], ['tr', 1], ['tr', 0],
+                 ['tr', -1], ['dc']] + SW0)
     raise ValueError(kind)
 
 
@@ -881,9 +1116,38 @@ def rand_seq_init(kind, rng):
     return seq_init(evs, rng.choice([0, 0, 4, 16, 7]), spq * rng.choice([3, 4]), spq, pad=0 if kind == 'simple' else None)
 
 
-def rand_op(kind, rng, n, x1=0, mx=0):
-    """one mostly valid operation given the current length `n` (rejections included, undefined ones not)"""
+STRIDES = [-1, -1, -2, -3, 2, 2, 3, 1, 5, -7]
+
+
+def rand_op(kind, rng, n, x1=0, mx=0, heap=1, alias=False):
+    """one mostly valid operation given the current length `n` and the number of objects `heap` (rejections
+    included, undefined ones not)"""
+    if heap > 1 and rng.random() < 0.08:
+        return ['sw', rng.randrange(heap)]
+    if kind in SIMPLE + ('lead',) and rng.random() < 0.05:
+        return ['sk', rand_bound(rng, n), rand_bound(rng, n), 0 if rng.random() < 0.05 else rng.choice(STRIDES)]
+    if kind == 'lead' and alias and rng.random() < 0.12:
+        r = rng.random()
+        if r < 0.3:
+            a = rng.randrange(heap)
+            return ['sh', a, a if rng.random() < 0.7 else rng.randrange(heap)]
+        sub = 'melody' if r < 0.65 else 'chord'
+        while True:
+            op = rand_op(sub, rng, n)
+            if op[0] in ('a', 'sl', 'ir', 'ri', 'rs'):
+                return ['mo' if sub == 'melody' else 'co', op]
     k = rng.random()
+    if kind == 'nperf':
+        if k < 0.5:
+            return ['a', [rng.choice([0, 1, mx, rng.randrange(0, mx + 1)]), rng.randrange(0, 128), rng.randrange(1, 33),
+                          rng.randrange(1, 20)]]
+        if k < 0.54:
+            return ['ab']
+        if k < 0.66:
+            return ['sl', rand_len(rng, x1), 1 if rng.random() < 0.2 else 0]
+        if k < 0.88:
+            return ['tr', rng.choice([n, 0, n - 1, -1, n + 3, rng.randrange(-n - 1, n + 2)])]
+        return ['dc']
     if kind in SIMPLE:
         if k < 0.30:
             return ['a', rand_event(kind, rng)]
@@ -993,10 +1257,12 @@ def rand_init(kind, rng):
                 'shift_range': rng.random() < 0.5,
                 'events': [sorted(rng.sample(range(0, 128), rng.randrange(0, 4))) for _ in range(rng.randrange(0, 5))]}
     if kind == 'perf':
-        if rng.random() < 0.3:
-            q, mq = rng.choice([(1, 1), (2, 2), (4, 4), (3, 1)])
+        if rng.random() < 0.4:
+            q, mq = rng.choice([(1, 1), (2, 2), (4, 4), (3, 1), (1, 3), (24, 4)])
             return {'start': rng.choice([0, 7]), 'max_shift': q * mq, 'metric': [q, mq]}
         return {'start': rng.choice([0, 7, 100]), 'max_shift': rng.choice([1, 2, 3, 10, 100])}
+    if kind == 'nperf':
+        return {'start': rng.choice([0, 3, 100]), 'max_shift': rng.choice([1, 3, 10, 1000])}
     raise ValueError(kind)
 
 
@@ -1008,32 +1274,35 @@ UNDEFINED_OPS = {
     'lead': [['sl', -1], ['ir', 0], ['ir', -1]],
     'roll': [['sl', -1, 0], ['sl', -3, 0]],
     'perf': [['sl', -1, 0], ['as', -1], ['as', -5], ['ts', -1]],
+    'nperf': [['sl', -1, 0], ['tr', -5], ['sl', -3, 1]],
 }
 
 
 def random_history(kind, rng, length, malformed=False):
-    """generate ops adaptively while executing them on the real object (the generator looks at the current
-    length only); returns (init, ops)"""
+    """generate ops adaptively while executing them on real objects (the generator looks at the current length
+    and the number of objects only); returns (init, ops)"""
     init = rand_init(kind, rng)
     try:
-        obj = make(kind, init)
+        w = World(kind, [make(kind, init)])
     except Exception:  # pylint: disable=broad-except
         return init, []
     ops = []
+    alias = kind == 'lead' and rng.random() < 0.3
     for _ in range(length):
         try:
+            obj = w.objs[w.cur]
             n = len(obj)
-            x1 = obj.num_steps if kind == 'perf' else 0
+            x1 = obj.num_steps if kind in ('perf', 'nperf') else 0
         except Exception:  # pylint: disable=broad-except
             break
-        mx = init['max_shift'] if kind == 'perf' else 0
+        mx = init['max_shift'] if kind in ('perf', 'nperf') else 0
         if malformed and rng.random() < 0.25:
             op = rng.choice(UNDEFINED_OPS[kind])
         else:
-            op = rand_op(kind, rng, n, x1, mx)
+            op = rand_op(kind, rng, n, x1, mx, heap=len(w.objs), alias=alias)
         ops.append(op)
         try:
-            obj = apply_op(kind, obj, op)
+            world_apply(w, op)
         except Exception:  # pylint: disable=broad-except
             pass
     return init, ops
@@ -1044,6 +1313,11 @@ def note_branches(kind, op, status, before, after):
     """histogram keys: which branch of the code an operation exercised"""
     t = op[0]
     h = ['%s:%s' % (kind, t) + ('' if status == 'ok' else ':' + status)]
+    if t == 'sk' and status == 'ok':
+        h.append('%s:sk:%s%s' % (kind, 'neg' if op[3] < 0 else 'pos' if op[3] > 1 else 'unit', ':empty' if after.n == 0 else ''))
+        return h
+    if t in ('sw', 'sh', 'mo', 'co') or kind == 'nperf':
+        return h
     if t == 'sl' and status == 'ok':
         n = op[1]
         left = kind not in ('lead',) and len(op) > 2 and op[2]
@@ -1064,12 +1338,12 @@ def note_branches(kind, op, status, before, after):
 
 
 def exhaustive(chk, kind, depth):
-    """every history of length <= depth over the class's alphabet, lock-step + oracle at every node"""
+    """every history of length <= depth over the class's alphabet, lock-step + oracle at every node; the
+    complete heap (every object created so far) is compared at every node"""
     inits, alphabet = exhaustive_plan(kind)
     stream = chk.stream('exhaustive:' + kind)
     hist = stream['hist']
     wires = [wire_op(kind, op) for op in alphabet]
-    classes = [classify(kind, op)[0] for op in alphabet]
     total = 0
     for init in inits:
         root, status, fail = real_init(kind, init)
@@ -1078,8 +1352,9 @@ def exhaustive(chk, kind, depth):
             continue
         pad = pad_of(kind, init.get('pad')) if kind in SIMPLE else None
         head = 'F ' + wire_init(kind, init)
+        w0 = World(kind, [root])
         try:
-            sn0 = observe(kind, root)
+            sn0 = snapshot(w0, 0)
         except Exception as e:  # pylint: disable=broad-except
             if not from_implementation(e):
                 raise
@@ -1089,22 +1364,23 @@ def exhaustive(chk, kind, depth):
         f0 = state_failures(kind, sn0)
         if f0:
             chk.fail('%s after construction: %s' % (kind, f0), {'class': kind, 'init': init, 'ops': []})
-        lines, expect, paths = [head], ['init ok ' + sn0.text], [()]
+        lines, expect, paths = [head], ['init ok ' + sn0.text + ' ; ' + world_dump(w0)], [()]
 
         def flush():
             model = chk.driver(EXE, lines)
             for ln, a, b, p in zip(lines, expect, model, paths):
                 if a != b:
                     chk.disagree('exhaustive:' + kind, {'class': kind, 'init': init, 'ops': [alphabet[i] for i in p], 'request': ln},
-                                 a[-600:], b[-600:])
+                                 a[-900:], b[-900:])
             del lines[:], expect[:], paths[:]
 
-        def rec(obj, sn, wire_prefix, status_prefix, path, d, tainted):
+        def rec(w, wire_prefix, status_prefix, path, d, tainted):
             nonlocal total
+            here = world_dump(w)
             for ai, op in enumerate(alphabet):
-                o = raw_clone(obj)
+                w2 = clone_world(w)
                 try:
-                    new, st, after, fail, t2 = real_step(kind, o, op, sn, pad, tainted)
+                    st, after, fail, t2 = real_step(w2, op, pad, tainted)
                 except OracleHit as h:
                     chk.fail('%s: %s' % (kind, h.what), {'class': kind, 'init': init, 'ops': [alphabet[i] for i in path + (ai,)]})
                     continue
@@ -1114,26 +1390,29 @@ def exhaustive(chk, kind, depth):
                 total += 1
                 stream['evaluations'] += 1
                 if not tainted:
-                    stream['nontrivial'].add(hash((sn.text, ai)))
-                for hk in note_branches(kind, op, st, sn, after):
+                    stream['nontrivial'].add(hash((here, ai)))
+                for hk in note_branches(kind, op, st, w.snaps[w.cur], after):
                     hist[hk] = hist.get(hk, 0) + 1
-                w = wire_prefix + ' ; ' + wires[ai]
+                if len(w2.objs) > 1:
+                    hk = 'heap-size:%d' % len(w2.objs)
+                    hist[hk] = hist.get(hk, 0) + 1
+                wl_ = wire_prefix + ' ; ' + wires[ai]
                 sp = status_prefix + ' ; ' + st
                 p2 = path + (ai,)
-                lines.append(w)
-                expect.append(sp + ' ' + after.text)
+                lines.append(wl_)
+                expect.append(sp + ' ' + after.text + ' ; ' + world_dump(w2))
                 paths.append(p2)
                 if fail and len(chk.failures) < 40:
                     chk.fail('%s: op %d %s: %s' % (kind, len(path), json.dumps(op), fail),
                              {'class': kind, 'init': init, 'ops': [alphabet[i] for i in p2]})
                 if d + 1 < depth:
-                    rec(new, after, w, sp, p2, d + 1, t2)
-                if len(lines) >= 100000 and d == 0:
+                    rec(w2, wl_, sp, p2, d + 1, t2)
+                if len(lines) >= 60000 and d == 0:
                     flush()
             if d == 0:
                 flush()
 
-        rec(root, sn0, head, 'init ok', (), 0, False)
+        rec(w0, head, 'init ok', (), 0, False)
     return total, len(alphabet)
 
 
@@ -1143,7 +1422,7 @@ def lockstep_cases(chk, stream, cases):
     shrunk = [0, 0]
     for (kind, init, ops, label) in cases:
         try:
-            exp, fail, done, need = run_history(kind, init, ops)
+            exp, fail, done, need, complete = run_history(kind, init, ops)
         except Exception as e:  # pylint: disable=broad-except
             if not from_implementation(e):
                 raise
@@ -1160,14 +1439,22 @@ def lockstep_cases(chk, stream, cases):
             chk.fail('%s: %s' % (kind, fail), {'class': kind, 'init': init, 'ops': bad, 'label': label})
         lines.append(history_line('T', kind, init, ops_run))
         expect.append(exp)
-        keep.append((kind, init, ops_run, label))
+        keep.append((kind, init, ops_run, label, complete))
     model = chk.driver(EXE, lines)
-    for (kind, init, ops, label), a, b in zip(keep, expect, model):
+    for (kind, init, ops, label, complete), a, b in zip(keep, expect, model):
         pa, pb = a.split(' ; '), b.split(' ; ')
+        if not complete:
+            # the real history stopped at an object that cannot be observed any more: compare what there is
+            pb = pb[:len(pa)]
+            b = ' ; '.join(pb)
         hist = []
         for op, part in zip(ops, pa[1:]):
             st = part.split(' ', 1)[0]
             hist.append('%s:%s' % (kind, op[0]) + ('' if st == 'ok' else ':' + st))
+        if complete and pa[-1].startswith('heap '):
+            hist.append('heap-objects:%s' % ('1' if pa[-1].split(' ')[1] == '1' else '2-4' if int(pa[-1].split(' ')[1]) <= 4 else '5+'))
+            if any(op[0] == 'sw' for op in ops):
+                hist.append('%s:continued-on-an-earlier-object' % kind)
         chk.count(stream, (kind, json.dumps(init), json.dumps(ops)), nontrivial=len(pa) > 1, hist=sorted(set(hist)))
         chk.stream(stream)['evaluations'] += max(len(ops) - 1, 0)
         if a != b:
@@ -1212,10 +1499,13 @@ def oracle_fails(kind, init, ops):
 
 def differs(chk, kind, init, ops):
     try:
-        exp, _, done, _ = run_history(kind, init, ops)
+        exp, _, done, _, complete = run_history(kind, init, ops)
     except Exception:  # pylint: disable=broad-except
         return False
-    return chk.driver(EXE, [history_line('T', kind, init, ops[:done])])[0] != exp
+    got = chk.driver(EXE, [history_line('T', kind, init, ops[:done])])[0]
+    if not complete:
+        got = ' ; '.join(got.split(' ; ')[:len(exp.split(' ; '))])
+    return got != exp
 
 
 KNOWN_HISTORIES = {
@@ -1231,14 +1521,19 @@ def run(chk):
     chk.prove(MODULES, THEOREMS, [EXE], extra_trusted=[
         'CPython list semantics (slicing, del, negative indices, list * int) as transcribed in pySlice/pyDelSlice/pyIndex/pyRepeat',
         'copy.deepcopy of PianorollSequence/Performance objects (default deepcopy) copies the attributes',
+        'Python object identity: objects created by different constructor calls share no mutable storage unless the '
+        'code stores a reference it was given (LeadSheet stores its melody/chords arguments) — as in Heap/LStore',
         'attrs frozen PerformanceEvent validator as transcribed in mkEvent'])
     depth = 5 if chk.thorough else 3
-    chk.rule = ('lock-step histories: after every operation the full observation (len, start_step, end_step, resolution or '
-                'num_steps, list(iter), obj[i] for all i in -len-1..len, steps) and the exception status of the real object and '
-                'of the Lean model are compared exactly. exhaustive: ALL histories of length <= %d over the per-class alphabets '
-                'of exhaustive_plan(); random: histories of length 200 from a structure-aware generator; malformed: histories '
-                'with negative lengths / factors < 1 / invalid events; corpus: formerly failing cases. unit-stride slices only. '
-                'non-trivial = distinct (state, operation) pair' % depth)
+    chk.rule = ('lock-step histories over a HEAP of objects (deepcopy / slices create objects, "sw k" continues on object k, lead '
+                'sheets additionally share / mutate their melody and chords objects): after every operation the full observation '
+                '(len, start_step, end_step, resolution or num_steps, list(iter), obj[i] for all i in -len-1..len, steps) of the '
+                'current object and the exception status, and at the end of every history (exhaustive stream: at every node) the '
+                'observation of EVERY object of the heap, are compared exactly between the real objects and the Lean model. '
+                'exhaustive: ALL histories of length <= %d over the per-class alphabets of exhaustive_plan() (Performance and '
+                'MetricPerformance both); random: histories of length 200 from a structure-aware generator; malformed: histories '
+                'with negative lengths / factors < 1 / invalid events; corpus: formerly failing cases. slices: unit stride and '
+                'extended s[i:j:k]. non-trivial = distinct (heap state, operation) pair' % depth)
     # ---- corpus + known findings (formerly failing inputs) first
     cases = []
     for name, obj in corpus_cases(PID):
@@ -1282,7 +1577,7 @@ def replay(chk, obj):
     kind, init, ops = obj['class'], obj['init'], obj['ops']
     print('replay C17: class=%s init=%s' % (kind, json.dumps(init)))
     try:
-        exp, fail, done, _ = run_history(kind, init, ops)
+        exp, fail, done, _, _ = run_history(kind, init, ops)
     except Exception as e:  # pylint: disable=broad-except
         if not from_implementation(e):
             raise
@@ -1292,5 +1587,8 @@ def replay(chk, obj):
     print('  constructed:', parts[0])
     for op, p in zip(ops, parts[1:]):
         print('  %-28s -> %s' % (json.dumps(op), p))
+    if parts[-1].startswith('heap '):
+        for k, o in enumerate(parts[-1].split(' # ')[1:]):
+            print('  object %d at the end: %s' % (k, o))
     print('PROPERTY FAILS: %s' % fail if fail else 'property holds on this history')
     return 1 if fail else 0
